@@ -76,7 +76,8 @@ struct St {
 
 struct Sched {
     st: Mutex<St>,
-    cv: Condvar,
+    /// one condition variable per controlled thread (all used with `st`): a hand-over wakes exactly the next thread
+    cvs: Vec<Condvar>,
 }
 
 static SCHED: Mutex<Option<Arc<Sched>>> = Mutex::new(None);
@@ -166,7 +167,8 @@ impl Sched {
         } else {
             0
         };
-        if site == "AtomicU32" && std::env::var_os("VERIF_C20_STRINGS").is_some() {
+        static SHOW_STRINGS: std::sync::OnceLock<bool> = std::sync::OnceLock::new();
+        if site == "AtomicU32" && *SHOW_STRINGS.get_or_init(|| std::env::var_os("VERIF_C20_STRINGS").is_some()) {
             // debugging aid: the hash cell is the first word of StarlarkStrN { hash, len, body }
             let len = unsafe { *((addr + 4) as *const u32) } as usize;
             let bytes = unsafe { std::slice::from_raw_parts((addr + 8) as *const u8, len.min(40)) };
@@ -176,9 +178,9 @@ impl Sched {
         let next = Self::pick_next(&mut st, tid, false);
         if next != tid {
             st.current = next;
-            self.cv.notify_all();
+            self.cvs[next].notify_one();
             while st.current != tid {
-                let (g, to) = self.cv.wait_timeout(st, Duration::from_secs(20)).unwrap();
+                let (g, to) = self.cvs[tid].wait_timeout(st, Duration::from_secs(20)).unwrap();
                 st = g;
                 if to.timed_out() {
                     st.fault = Some("scheduler timeout (uncontrolled blocking?)".to_owned());
@@ -200,9 +202,9 @@ impl Sched {
         }
         if next != tid {
             st.current = next;
-            self.cv.notify_all();
+            self.cvs[next].notify_one();
             while st.current != tid {
-                let (g, to) = self.cv.wait_timeout(st, Duration::from_secs(20)).unwrap();
+                let (g, to) = self.cvs[tid].wait_timeout(st, Duration::from_secs(20)).unwrap();
                 st = g;
                 if to.timed_out() {
                     st.fault = Some("scheduler timeout (uncontrolled blocking?)".to_owned());
@@ -216,7 +218,7 @@ impl Sched {
     fn thread_start(&self, tid: usize) {
         let mut st = self.st.lock().unwrap();
         while st.current != tid {
-            let (g, to) = self.cv.wait_timeout(st, Duration::from_secs(20)).unwrap();
+            let (g, to) = self.cvs[tid].wait_timeout(st, Duration::from_secs(20)).unwrap();
             st = g;
             if to.timed_out() {
                 st.fault = Some("scheduler timeout at thread start".to_owned());
@@ -230,7 +232,9 @@ impl Sched {
         st.finished[tid] = true;
         let next = Self::pick_next(&mut st, tid, true);
         st.current = next;
-        self.cv.notify_all();
+        if next != usize::MAX {
+            self.cvs[next].notify_one();
+        }
     }
 }
 
@@ -283,7 +287,7 @@ fn run_schedule(bodies: Vec<Body>, choices: &[usize]) -> Exec {
             fault: None,
             waiting: (0..n).map(|_| None).collect(),
         }),
-        cv: Condvar::new(),
+        cvs: (0..n).map(|_| Condvar::new()).collect(),
     });
     *SCHED.lock().unwrap() = Some(s.dupe());
     starlark::verif::sync::set_point_hook(Some(hook));
